@@ -221,7 +221,10 @@ theorem run_shape (ρ : List FunDef) : ∀ (f : Nat) (j : Job) (s : St), (run ρ
         refine bnd_shape _ _ _ (ih _ _) (fun r t ht => ?_)
         refine bnd_shape _ _ _ (by rw [ih, ht]) (fun l t2 ht2 => ?_)
         try simp only []
-        have hc := shape_cloneIfNecessary t2 r
+        have htag : (tagParamAlias t2 r).shape = t2.shape := by
+          unfold tagParamAlias
+          split <;> rfl
+        have hc := shape_cloneIfNecessary (tagParamAlias t2 r) r
         repeat' split
         all_goals first
           | (simp [ht2]; done)
